@@ -257,6 +257,47 @@ fn run_convert(bin: &str, input: &std::path::Path, output: &std::path::Path) -> 
     Some((out.status.success(), String::from_utf8_lossy(&out.stderr).chars().take(400).collect()))
 }
 
+/// `adlt convert <input> -o <fifo>` with tiny channels; the reader takes the first bytes, stalls, then takes the rest
+fn run_convert_stalled_fifo(bin: &str, input: &std::path::Path, fifo: &std::path::Path) -> Option<(bool, String, Vec<u8>)> {
+    use std::io::Read;
+    use std::os::unix::fs::OpenOptionsExt;
+    if !std::process::Command::new("mkfifo").arg(fifo).status().ok()?.success() {
+        return None;
+    }
+    let fifo_r = fifo.to_path_buf();
+    let reader = std::thread::spawn(move || -> Vec<u8> {
+        let mut v = Vec::new();
+        if let Ok(mut f) = std::fs::File::open(&fifo_r) {
+            let mut first = [0u8; 4096];
+            if let Ok(k) = f.read(&mut first) {
+                v.extend_from_slice(&first[..k]);
+                if k > 0 {
+                    std::thread::sleep(std::time::Duration::from_millis(1600));
+                    let _ = f.read_to_end(&mut v);
+                }
+            }
+        }
+        v
+    });
+    let child = std::process::Command::new(bin)
+        .arg("convert")
+        .arg(input)
+        .arg("-o")
+        .arg(fifo)
+        .env("TZ", "UTC")
+        .env("ADLT_VERIF_CHAN_CAP", "2")
+        .stdin(std::process::Stdio::null())
+        .stdout(std::process::Stdio::null())
+        .stderr(std::process::Stdio::piped())
+        .spawn();
+    let out = child.and_then(|c| c.wait_with_output());
+    // release a reader that still waits for a writer (the child never opened the fifo): a non blocking open for writing, dropped at once
+    let _ = std::fs::OpenOptions::new().write(true).custom_flags(0o4000).open(fifo);
+    let bytes = reader.join().ok()?;
+    let out = out.ok()?;
+    Some((out.status.success(), String::from_utf8_lossy(&out.stderr).chars().take(400).collect(), bytes))
+}
+
 /// one message of the stream with a marker (DLT\x01 / DLS\x01) written into its payload or ids: obtain it by parsing it
 /// alone (storage framing), then the per message oracle
 fn embedded_marker_case(rep: &mut Report, rng: &mut Rng, rm: &RefMsg, c: &StreamCase) {
@@ -380,6 +421,21 @@ fn binary_export(rep: &mut Report, bin: &str, c: &StreamCase, export: &[u8]) {
         // locate the first differing message for the detail
         let at = a_bytes.iter().zip(export.iter()).position(|(x, y)| x != y).unwrap_or(a_bytes.len().min(export.len()));
         rep.violation("bin:export-differs", format!("adlt convert -o wrote {} bytes, expected {} (messages written one by one); first difference at byte {}", a_bytes.len(), export.len(), at), replay());
+        return;
+    }
+    // exports larger than a pipe buffer: half of them are exported again into a fifo whose reader stalls for 1.6 s while the
+    // channels between the stages hold 2 messages (hook H4): back pressure through every stage, the export must not change
+    if a_bytes.len() > 300_000 && a_bytes.len() % 2 == 0 {
+        match run_convert_stalled_fifo(bin, &a, &dir.path().join("b.fifo")) {
+            None => rep.inc("inconclusive_fifo"),
+            Some((false, err, _)) => rep.violation("bin:export-failed", format!("adlt convert a.dlt -o b.fifo failed: {}", err), replay()),
+            Some((true, _, b_bytes)) => {
+                rep.inc("bin_exports_read_through_a_stalled_fifo");
+                if b_bytes != a_bytes {
+                    rep.violation("bin:export-under-back-pressure", format!("export into a fifo whose reader stalled for 1.6 s (channel capacity 2): {} bytes arrived, the exported file has {}", b_bytes.len(), a_bytes.len()), replay());
+                }
+            }
+        }
         return;
     }
     match run_convert(bin, &a, &b) {
